@@ -26,7 +26,7 @@ func ruleNoDiscardedPull(c *Ctx, r *R, rels ...string) {
 				continue
 			}
 			for _, mn := range []string{"Next", "Peek"} {
-				fn := c.fn(rel + "." + tn + "." + mn)
+				fn := c.fn(rel + "." + canonTypeName(rel, tn) + "." + mn)
 				if fn == nil {
 					continue
 				}
